@@ -27,6 +27,16 @@ pub struct ServerCfg {
     pub heartbeat: u16,
     /// cut the handshake replies into segments of this many bytes (0 = whole frames)
     pub handshake_chunk: usize,
+    /// answer Connection.Open only after this many milliseconds (a slow server)
+    pub open_ok_delay_ms: u64,
+    /// raw bytes the server sends right behind OpenOk (frames of its own accord: blocked
+    /// notices, heartbeats, ...); the first `trailer_glue` of them travel in the same read
+    /// segment as OpenOk, the rest follows as a second segment
+    pub trailer: Vec<u8>,
+    pub trailer_glue: usize,
+    /// a would-block between the two segments (the read that carries OpenOk then really ends
+    /// after `trailer_glue` trailer bytes; without it the client may drain both in one go)
+    pub trailer_block: bool,
 }
 
 impl Default for ServerCfg {
@@ -39,6 +49,10 @@ impl Default for ServerCfg {
             frame_max: 131072,
             heartbeat: 0,
             handshake_chunk: 0,
+            open_ok_delay_ms: 0,
+            trailer: Vec::new(),
+            trailer_glue: 0,
+            trailer_block: false,
         }
     }
 }
@@ -289,16 +303,31 @@ pub fn spawn_broker<R: Responder>(wire: Wire, cfg: ServerCfg, r: R) -> BrokerHan
                             }
                             3 => {
                                 if let AMQPFrame::Method(0, AMQPClass::Connection(Conn::Open(_))) = &f {
-                                    send_chunked(
-                                        &mut io,
-                                        AMQPFrame::Method(
-                                            0,
-                                            AMQPClass::Connection(Conn::OpenOk(connection::OpenOk {
-                                                known_hosts: String::new(),
-                                            })),
-                                        ),
-                                        cfg.handshake_chunk,
+                                    if cfg.open_ok_delay_ms > 0 {
+                                        std::thread::sleep(Duration::from_millis(cfg.open_ok_delay_ms));
+                                    }
+                                    let open_ok = AMQPFrame::Method(
+                                        0,
+                                        AMQPClass::Connection(Conn::OpenOk(connection::OpenOk {
+                                            known_hosts: String::new(),
+                                        })),
                                     );
+                                    if cfg.trailer.is_empty() {
+                                        send_chunked(&mut io, open_ok, cfg.handshake_chunk);
+                                    } else {
+                                        let k = cfg.trailer_glue.min(cfg.trailer.len());
+                                        let mut first = encode(&open_ok);
+                                        first.extend_from_slice(&cfg.trailer[..k]);
+                                        let mut items = vec![crate::wire::InItem::Data(first)];
+                                        if k < cfg.trailer.len() {
+                                            if cfg.trailer_block {
+                                                items.push(crate::wire::InItem::Block);
+                                            }
+                                            items.push(crate::wire::InItem::Data(cfg.trailer[k..].to_vec()));
+                                        }
+                                        io.wire.push_items(items);
+                                        io.sent.push(open_ok);
+                                    }
                                     phase = 4;
                                     ctl2.lock().unwrap().handshake_done = true;
                                 }
